@@ -24,6 +24,8 @@ LEVEL_TEXT = ('Decides from the source: every FailedParse raised by the engine i
               'loops make progress. Implicit exceptions in general, and agreement of line/column with the position, are not decided.')
 TECHNIQUE += "; operand coverage of the undefined-rule analysis over every model class (every operand field is read), termination of the whitespace/comment eat loops under empty matches (interpreted with a scanner that answers empty matches), converter-guard rule (int/float/eval/re.compile of matched or grammar text sits under handlers covering the converter's exception set and raising a TatSu error), definite assignment on the error-rendering path"
 LEVEL_TEXT += ' Added clauses: rules referenced from any operand (incl. join separators) are seen by the undefined-rule check; an empty match ends the skip loop; converters of matched or grammar text cannot leak ValueError/OverflowError/SyntaxError/re.error/UnicodeDecodeError; rendering a failure reads no possibly-unbound local.'
+TECHNIQUE += '; line index (= C12.R3); include-cycle contract of Grammar.initialize on stand-in grammars; guard rule for parse-time converters (int of matched text, literal_eval of constants); totality of regexpp (= C02.R11)'
+LEVEL_TEXT += " Added clauses: line/column/source line agree with the position (C12.R3); an include cycle is a GrammarError; digit runs beyond Python's limit and constants with unhashable keys fail the match; every valid pattern can be written into messages and generated code."
 LEVEL_NOTE = 'Trusted: the exception hierarchy of tatsu/exceptions.py; int()/float() raise ValueError on an empty string.'
 EXPLANATION = ('Static analysis of /repo sources, TatSu not imported. Raise sites are enumerated and classified through the static '
                'class table; scanner/consumer pairs of tatsu/input/cursor.py are analysed with the path engine and the '
@@ -826,6 +828,15 @@ def r13_input_converters(a, tier):
     return rep
 
 
+def r14_pattern_literals(a, tier):
+    """regexpp runs when a grammar is compiled (Pattern.__str__ in the lookahead sets), when a parser is generated and when a failed
+    pattern is reported: it must return for every valid regular expression (totality part of C02.R11)"""
+    from . import c02
+    rep = c02.regexpp_literals(a, tier, 'C08.R14', totality_only=True)
+    rep.text = '[= C02.R11, totality only: regexpp returns, it does not raise] ' + rep.text
+    return rep
+
+
 def r11_line_index(a, tier):
     """the position a failure carries is turned into line, column and source line by the line index: the clause "whose line, column and
     source line agree with it" is the line-index rule of C12"""
@@ -839,4 +850,4 @@ def r11_line_index(a, tier):
 
 
 RULES = [r1_one_factory, r2_sentinels, r3_cache_guards, r4_check_before_use, r5_progress, r6_scanner_bounds, r7_operand_coverage,
-         r8_eat_loops_terminate, r9_converters_guarded, r10_message_renders, r11_line_index, r12_include_cycles, r13_input_converters]
+         r8_eat_loops_terminate, r9_converters_guarded, r10_message_renders, r11_line_index, r12_include_cycles, r13_input_converters, r14_pattern_literals]
